@@ -10,8 +10,9 @@ CLAIMED = {
 }
 CLAIMED["C01"] = ("model_checking", "5 C01",
     "Assume-guarantee over the widget tree: each container/decoration class is executed symbolically with abstract children for unbounded sizes "
-    "and options, the solver showing the rendered canvas has exactly the requested size on every path; leaves are discharged on symbolic text.",
-    "z3 trusted; children assumed to satisfy the widget contract (proved separately for the bundled leaves within the text-length bounds).")
+    "and options, the solver showing the rendered canvas has exactly the requested size on every path; 20 bundled leaf widgets / thin decorations are rendered with "
+    "catalogued parameters at every supported sizing mode, focus and size 1..6/9 (enumerated through the solver; Text/Edit layout on symbolic text is C03/C10).",
+    "z3 trusted; children assumed to satisfy the widget contract; TreeWidget, Terminal, PopUpLauncher not covered; two open known findings (Columns of zero-row children, flow Pile whose only non-empty item is a fixed child).")
 CLAIMED["C16"] = ("model_checking", "5 C16",
     "Inductive step: one list operation from an arbitrary valid focus on the real MonitoredFocusList, against a built-in list and the statement's focus rule; "
     "the focus is a solver variable, indices/slice fields are enumerated through the solver with a coverage certificate.",
@@ -52,7 +53,7 @@ CLAIMED["C14"] = ("model_checking", "5 C14",
 CLAIMED["C09"] = ("model_checking", "5 C09",
     "Each container/decoration class is executed around an abstract leaf implementing the cursor protocol, for unbounded symbolic sizes, options and event cells under the "
     "fit precondition; the solver shows reported cursor == rendered cursor, mouse events on the leaf's cells reach it with translated coordinates, and cursor moves translate likewise.",
-    "z3 trusted; abstract cursor leaf (contract: cursor inside its own area); the leaf's position is read off the rendered cursor.")
+    "z3 trusted; abstract cursor leaf (contract: cursor inside its own area); the leaf's position is read off the rendered cursor, or off the container's own size calculation when the leaf is in an unfocused column / pile item.")
 CLAIMED["C08"] = ("model_checking", "5 C08",
     "Inductive step on the real container classes with abstract children whose selectability is symbolic: focus assignment for any integer, every navigation key, contents edits at "
     "symbolic indices, set_focus_path and focused rendering; focus validity, focus-path confinement of keypresses and the selectable-iff-a-child-is rule are discharged per path.",
@@ -76,17 +77,17 @@ CLAIMED["C04"] = ("model_checking", "5 C04",
 CLAIMED["C02"] = ("model_checking", "5 C02",
     "Operation trees over combine, join, overlay, pad/trim on every side, trim, trim_end and attribute remapping are executed on the real canvas classes with abstract leaves "
     "and unbounded symbolic widths/offsets; for a symbolic column the located cell (leaf, coordinates, attribute map) is shown equal to the reference grid semantics of models/grid.py.",
-    "z3 trusted; rows 1..3; trees of depth <= 2 (quick) / 3; TextCanvas byte-level trimming and content_delta outside; models/grid.py is part of the trusted base.")
+    "z3 trusted; rows 1..3; trees of depth <= 2 plus three depth-3 trees (tall canvas beside a stack); real TextCanvas rows with wide characters under trims/overlay (textleaf.*) and content_delta of 11 tree pairs (delta.*) are included; models/grid.py is part of the trusted base.")
 CLAIMED["C12"] = ("fault_enumeration", "5 C12",
     "The real MainLoop runs a chained scripted session (keys, mouse, resize by SIGWINCH, alarms, pipe write) on a real pty pair with each bundled event loop that imports here; "
     "the index of the callback invocation that raises, the exception kind and the widget's handled/unhandled answers are solver variables whose whole range is enumerated through the solver "
     "(coverage certificate per instance); the exception contract, delivery order, redraw-before-wait and the terminal's final modes, termios and signal handlers are checked on every path.",
     "z3 only enumerates the fault space (no arithmetic content, said plainly); one session shape; glib loop absent; faults inside MainLoop.start() not injected.")
 CLAIMED["C06"] = ("model_checking", "5 C06",
-    "Seven real widget trees are driven through histories whose mutation, release and render selectors are solver variables (enumerated through the solver, coverage certificate per instance); "
+    "Nine real widget trees are driven through histories whose mutation, release and render selectors are solver variables (enumerated through the solver, coverage certificate per instance); "
     "a twin tree receiving the same operations always renders with CanvasCache emptied; content, cursor and rows() of the cached tree must equal the twin's, handed-out canvases must stay unchanged and refuse mutation.  "
     "No arithmetic content (said plainly): the solver enumerates the history space and certifies it was exhausted.",
-    "z3 trusted for path feasibility/coverage only; 7 trees, 8-17 mutators each, histories of 2 (quick) / 3 (thorough) mutations; plain attribute assignments without a setter (Padding.left, BoxAdapter.height, Overlay.top_w) are not mutators.")
+    "z3 trusted for path feasibility/coverage only; 9 trees, 8-17 mutators each, histories of 2 (quick) / 3 (thorough) mutations; plain attribute assignments without a setter (Padding.left, BoxAdapter.height, Overlay.top_w) are not mutators.")
 NOT_YET = {}
 TECH = "bounded symbolic execution of the real urwid code (AST-lifted import of /repo) with z3 deciding every path obligation; counterexamples replayed on the un-lifted code"
 def main():
